@@ -419,3 +419,54 @@ def run_c04(chk, n_types):
                         f"C04 oracle (extended stream): {cls.__name__} structure(<{kind}> {fac()!r:.200}, {describe(t)}): detailed -> {rd!r:.160}, fast -> {rf!r:.160}",
                         {"ext": True, "type": describe(t), "payload_kind": kind, "payload": repr(list(fac()) if kind in ("generator", "iterator", "map") else fac())[:400],
                          "converter": cls.__name__, "detailed": repr(rd)[:300], "fast": repr(rf)[:300]})
+
+
+def mutate_leaf(rng, p):
+    """corrupt one LEAF (or delete one key) of a payload; containers keep their kind, so class positions keep holding mappings"""
+    if isinstance(p, dict) and p:
+        k = rng.choice(list(p))
+        q = dict(p)
+        if rng.random() < 0.2:
+            del q[k]
+        else:
+            q[k] = mutate_leaf(rng, p[k])
+        return q
+    if isinstance(p, (list, tuple)) and p:
+        i = rng.randrange(len(p))
+        q = list(p)
+        q[i] = mutate_leaf(rng, p[i])
+        return type(p)(q) if type(p) in (list, tuple) else q
+    if isinstance(p, (dict, list, tuple)):
+        return p
+    return rng.choice(["zz?", None, 12345, "k9", "nope", -1, 2.5])
+
+
+def run_c06(chk, n_types):
+    """Converter and BaseConverter agree (same outcome, equal results) on the extended types for payloads whose class
+    positions hold mappings; implementation-only"""
+    import cattrs
+    G = ExtGen(chk.rng)
+    rng = chk.rng
+    for _ in range(n_types):
+        t = G.type(2)
+        T = G.py_ty(t)
+        for dv in (True, False):
+            cg, cb = cattrs.Converter(detailed_validation=dv), cattrs.BaseConverter(detailed_validation=dv)
+            install_registry_hooks(cg)
+            install_registry_hooks(cb)
+            x = G.value(t)
+            u = _try(lambda: cg.unstructure(x, unstructure_as=T))
+            if u[0] != "ok":
+                continue
+            for p in [u[1]] + [mutate_leaf(rng, u[1]) for _ in range(3)]:
+                rg = _try(lambda: cg.structure(p, T))
+                rb = _try(lambda: cb.structure(p, T))
+                chk.count("ext:c06" + describe(t) + repr(p)[:300], sample=None)
+                chk.note("ext-stream:engines:" + rg[0] + "/" + rb[0])
+                og, ob = _outcome(rg), _outcome(rb)
+                if og[0] != ob[0] or (og[0] == "ok" and not same(og[1], ob[1])):
+                    chk.violation(
+                        f"C06 oracle (extended stream): structure({p!r:.200}, {describe(t)}), detailed_validation={dv}: Converter -> {rg!r:.160}, "
+                        f"BaseConverter -> {rb!r:.160}",
+                        {"ext": True, "type": describe(t), "payload": repr(p)[:400], "detailed": dv,
+                         "converter": repr(rg)[:300], "baseconverter": repr(rb)[:300]})
